@@ -24,11 +24,33 @@ def make(prog, fresh=True):
     return m
 
 
-def fit_program(prog):
+def reconfigure(m, prog):
+    """Point an existing (possibly already fitted) model object at a new program."""
+    import opfython.math.distance as D
+    metric = prog.get("metric") or "log_squared_euclidean"
+    m.distance = metric
+    m.distance_fn = D.DISTANCES[metric]
+    if prog["model"] == "KNNSupervisedOPF":
+        m.max_k = int(prog["max_k"])
+    else:
+        m.min_k = 1
+        m.max_k = int(prog["max_k"])
+        m.min_k = int(prog["min_k"])
+    if prog["mode"] == "pre":
+        m.pre_computed_distance = True
+        m.pre_distances = np.array(prog["W"], dtype=float)
+    else:
+        m.pre_computed_distance = False
+        m.pre_distances = None
+    return m
+
+
+def fit_program(prog, model=None):
     """prog: {"model", "mode": "pre"|"features", "W" | ("X", "metric"), "labels",
     "max_k", ["min_k"], KNN: "val": {"X"|"I", "labels"}}.  In pre mode training
-    nodes are rows prog.get("I_train", 0..n-1) of W."""
-    m = make(prog)
+    nodes are rows prog.get("I_train", 0..n-1) of W.  With model=<object> the same
+    (already used) instance is fitted again."""
+    m = make(prog) if model is None else reconfigure(model, prog)
     lab = np.array(prog["labels"], dtype=int)
     n = len(lab)
     if prog["mode"] == "pre":
